@@ -16,6 +16,7 @@ import time
 from .. import coqterm as T
 from .. import c06drv as D
 from .. import c06oracle as O
+from .. import c06_pool as PL
 from ..c06gen import Gen, COMMAND_NAMES, ADVERSARIAL_MESSAGES, SIEVE_LINES, BACKTRACK_LINES
 
 HEADER = ('From PV Require Import Base.Prelude Cmd.CLex Cmd.Parser Cmd.Utf7Ok Cmd.Grammar '
@@ -1131,7 +1132,9 @@ def run(ctx) -> None:
                 'command with valid and invalid arguments (80% chosen among the commands meaningful in the '
                 'connection state), mutated lines (1-3 byte/token edits), raw lines, byte sweeps of base lines, '
                 'deep nestings; adversarial stored messages x every FETCH attribute and SEARCH key; ManageSieve '
-                'lines; non-trivial = parsed to a command / answered OK or NO / continuation requested')
+                'lines; non-trivial = parsed to a command / answered OK or NO / continuation requested; '
+                'worker pool: maildir backend with --concurrency 1, 2 (thorough 3) x k >= N connections waiting for '
+                'their client (7 kinds) x a prober connection with 3-5 commands, own PRNG stream')
     ctx.assumptions += [
         'CPython (re, int, codecs, datetime.strptime, email) is the semantics of the implementation side and the '
         'source of the oracle answers given to the model (strptime, codec lookup and decode)',
@@ -1140,10 +1143,17 @@ def run(ctx) -> None:
         'is checked by the monitors only (dict backend)',
         'super-linear CPU time of the regex engine cannot be exhibited by the model; it is bounded only by the '
         f'watchdog ({D.CPU_BUDGET} s CPU per step)',
+        f'worker pool: real-time bounds ({PL.BOUND:.0f} s per answer, {PL.POLL_BOUND:.0f} s per idle poll call, '
+        f'{PL.CALL_BOUND:.0f} s per other backend call); ThreadPoolExecutor is FIFO and work conserving (validated by '
+        'the worker_pool correspondence on every observed call); the executor is reached through the private '
+        'attribute _executor of the threading subsystem',
     ]
-    ctx.check_proofs(['Cmd/Check', 'Cmd/Framing'])
+    ctx.check_proofs(['Cmd/Check', 'Cmd/Framing', 'Sync/WorkerPoolCheck'])
     import os
     only = os.environ.get('C06_SECTIONS')      # development aid: run a subset
+    # the maildir backend on its thread pool: real time, real threads, in a child
+    # process that runs while the sections below drive the in-process servers
+    pool_run = PL.start(ctx) if (not only or 'pool' in only.split(',')) else None
     for sec in SECTIONS:
         if only and sec.__name__.replace('section_', '') not in only.split(','):
             continue
@@ -1151,12 +1161,18 @@ def run(ctx) -> None:
         _hangs[0] = 0
         sec(ctx)
         ctx.extra.setdefault('section_wall_s', {})[sec.__name__] = round(time.time() - t0, 1)
+    if pool_run is not None:
+        t0 = time.time()
+        PL.judge(ctx, pool_run)
+        ctx.extra.setdefault('section_wall_s', {})['pool_wait_and_judge'] = round(time.time() - t0, 1)
     t0 = time.time()
     join_all()
-    ctx.extra['section_wall_s']['coq_evaluation_tail'] = round(time.time() - t0, 1)
+    ctx.extra.setdefault('section_wall_s', {})['coq_evaluation_tail'] = round(time.time() - t0, 1)
 
 
 def replay(ctx, obj) -> int:
+    if obj.get('kind') == 'pool':
+        return PL.replay(obj)
     D.install_watchdog()
     from ..pymap_env import run, DictEnv
 
